@@ -35,6 +35,11 @@ def _classify(line, r):
             names = re.findall(r'"((?:[^"]|"")*)"', rest)[:(1 if kind == "ROpt" else 2)]
             subj = ".".join(re.sub(r"[^A-Za-z0-9_.]", "_", n.split(" ")[-1]) for n in names if n)
             return "descriptor.proto-source-differs.%s.%s.%s.at%d" % (fsafe, kind, subj[:120], r[1])
+    if code == 11:
+        for st in line.get("steps") or []:
+            m = re.search(r"message (\S+) field (\w+)", st)
+            if m:
+                return "descriptor.message.%s.%s.field-%s.at%d" % (re.sub(r"[^A-Za-z0-9_.]", "_", h.get("file", "?")), h.get("name", "?").replace("/", "_"), m.group(2), r[1])
     name = {10: "file", 11: "message", 12: "enum", 13: "service", 14: "imported-message", 15: "grpc-service-desc", 20: "unregistered-msg",
             21: "signer-unresolved", 30: "proto-source-differs"}.get(code, "code%d" % code)
     return "descriptor.%s.%s.%s.at%d" % (name, re.sub(r"[^A-Za-z0-9_.]", "_", h.get("file", "?")), h.get("name", "?").replace("/", "_"), r[1])
